@@ -160,6 +160,7 @@ func TestVerifRecC10(t *testing.T) {
 	cfg := os.Getenv("VERIF_CFG")
 	w := newVWriter(dir, "C10-"+cfg, shards)
 	defer w.close()
+	defer vfresh(w, cfg, "edwards")
 	g := &vpool{r: rand.New(rand.NewSource(seed))}
 	ev := func(op string) vev { return vev{"op": op, "cfg": cfg} }
 
